@@ -7,6 +7,7 @@ import Sqroot.Proofs.Print
 import Sqroot.Proofs.FprintFault
 import Sqroot.Proofs.FprintFaultRun
 import Sqroot.Proofs.FprintFault12
+import Sqroot.Proofs.Fprint12
 namespace Sqroot.Props.C12
 open Sqroot.Model Sqroot.Proofs
 
@@ -123,5 +124,12 @@ theorem fault_stops_the_range_v12 (c : MemoCfg) (m : Memo) (pr : Printer) (v v1 
     pr.pulled < pr'.pulled ∧
     m'.maxLength ≤ max m.maxLength (blockUp c (v2.start.toNat + (pr'.pulled - pr.pulled) + 1)) :=
   range_fault_prompt_stop12 c m pr v v1 v2 r m' pr' h1 h2 h hok herr
+
+/-- v1 / v2: the early-exit run writes what the plain run writes -/
+theorem early_exit_run_is_the_plain_run_v12 (ver : Version) (c : MemoCfg) (m : Memo) (sink : Sink) (s : PSettings)
+    (v : Val12) (ranges : List PRange) (r : PrintResult) (m' : Memo) (r0 : PrintResult)
+    (h : fprintFault12 ver c m sink s v ranges = some (.ok (r, m')))
+    (h0 : fprint12 ver c m sink s v ranges = some (.ok r0)) : r = r0 :=
+  fprintFault12_result_eq ver c m sink s v ranges r m' r0 h h0
 
 end Sqroot.Props.C12
